@@ -167,7 +167,10 @@ class Command:
             None  # for arguments that expect an argument :p (ex: :comparator)
         )
 
-        self.name: str = self.__class__.__name__.replace("Command", "")
+        self.name: str = self.__class__.__name__
+        if self.name.endswith("Command"):
+            # only the class-name suffix, not a "Command" inside the name
+            self.name = self.name[: -len("Command")]
         self.name = self.name.lower()
 
         self.hash_comments: List[bytes] = []
